@@ -43,9 +43,28 @@ def mod():
     return sys.modules[__name__]
 
 
-def _ir():
-    return domain.ir_strategy(allowed=CORE_ALLOWED, min_params=1, max_params=4, argparse_only=True,
-                              base_exclude=())
+@st.composite
+def _ir(draw):
+    ir = draw(domain.ir_strategy(allowed=CORE_ALLOWED, min_params=1, max_params=4, argparse_only=True, base_exclude=()))
+    docd = [p for p in ir["params"] if "doc" in p and not p["name"].endswith("kwargs")]
+    if docd and ir["params"][-1] is docd[-1] and draw(st.integers(0, 2)) == 0:
+        # the last line of the generated class docstring (`    :cvar name: prose`) just below the width: the closing quotes
+        # of the docstring then sit at the edge of what a formatter accepts on one line
+        p = docd[-1]
+        total = draw(st.integers(90, 100))
+        need = total - 4 - len(":cvar %s: " % p["name"]) - len(p["doc"]) - 1
+        words = []
+        i = draw(st.integers(0, len(domain.WORDS) - 1))
+        while need > 0:
+            w = domain.WORDS[i % len(domain.WORDS)]
+            i += 1
+            if len(w) + 1 > need:
+                w = "x" * need
+            words.append(w)
+            need -= len(w) + 1
+        if words:
+            p["doc"] = p["doc"].rstrip(".") + " " + " ".join(words)
+    return ir
 
 
 @st.composite
